@@ -13,7 +13,7 @@ from mc.result import Result
 
 PROPERTY = 'C13'
 LEVEL = 'exploration'
-CASE_GUARD_S = 3600  # a case is a composite (one block of expressions x all texts ...)
+CASE_GUARD_S = {'quick': 300, 'thorough': 3600}  # a case is a composite (a block of expressions x all texts, ...)
 CHUNK = 3
 RULE = ('line-matcher trees: line-num with integer-matcher trees of depth <= 2 (6 operators, operands from -1 to N+2, constants, !, &&, ||), '
         'line-level trees of depth <= 2 (thorough 3) over line-num comparisons, contents matchers and constants, mixed trees and their '
